@@ -15,7 +15,8 @@ from common import hx
 FILES = ["gen/Gen_tensors.v", "Model_voigt.v", "Model_decomp.v", "Proofs_tensors_alg.v"] + \
         [f"Proofs_tensors_rot{i}.v" for i in range(9)] + \
         ["Proofs_tensors_rot.v", "Proofs_tensors_maps.v", "Proofs_tensors_proj.v", "Inst_tensors.v",
-         "Proofs_decomp.v", "Proofs_decomp2.v", "Proofs_decomp3.v", "Model_decomp_series.v", "Proofs_decomp_series.v",
+         "Proofs_decomp.v", "Proofs_decomp2.v", "Proofs_decomp3.v", "Proofs_decomp4.v", "Proofs_decomp5.v",
+         "Model_decomp_series.v", "Proofs_decomp_series.v",
          # tie T for elasticity_components itself: regenerated from pydrex/diagnostics.py on every run
          "gen/Gen_decomp.v", "Inst_decomp_base.v", "Inst_decomp_seg0.v", "Inst_decomp_seg1.v", "Inst_decomp_seg2.v",
          "Inst_decomp.v", "Proofs_decomp_gen.v",
